@@ -114,13 +114,13 @@ theorem den_shifted (e : SEntry α) (inner : Sig α) (hs : e.sig = shift e.idle 
 
 '''
 
-def thm(name, params, hyps, rule):
+def thm(name, params, hyps, rule, cfg=None, suffix=''):
     binders = ' (' + ' '.join(params) + ' : Nat)' if params else ''
     binders += ' (fs : List α)'
     for k, h in enumerate(hyps):
         binders += ' (h%d : %s)' % (k, h)
-    cfg = '[' + ', '.join(params) + ']'
-    lname = name[0].lower() + name[1:]
+    cfg = cfg or '[' + ', '.join(params) + ']'
+    lname = name[0].lower() + name[1:] + suffix
     return ('''theorem %s_rule%s :
     ∃ e inner, lookupS "%s" %s fs = some e ∧ e.sig = shift e.idle hold inner ∧ Good inner e.idle 5 ∧
       ∀ (x : Nat → Nat → α) (i : Nat), den x inner i =
@@ -138,6 +138,19 @@ def main():
     out = HEAD
     for name, params, hyps, rule in T:
         out += thm(name, params, hyps, rule)
+    from gen_c02 import KINDS
+    KNAME = {0: '.sma p', 1: '.ema p', 3: '.smma p', 4: '.wma p', 5: '.hma p'}
+    for k, kn in KINDS:
+        out += thm('Envelope', ['p'], ['1 ≤ p'],
+                   '''let u := den x ((envelope (%s) (fs.getD 0 zero) sClose).getD 0 sClose) i
+     let l := den x ((envelope (%s) (fs.getD 0 zero) sClose).getD 2 sClose) i
+     let c := x 3 i
+     if Arith.lt c l then buy else if Arith.gt c u then sell else hold''' % (KNAME[k], KNAME[k]), cfg='[%d, p]' % k, suffix='With' + kn)
+    for k, kn in KINDS:
+        out += thm('SuperTrend', ['p'], ['1 ≤ p'],
+                   '''let st := den x (superTrend (%s) (fs.getD 0 zero) sHigh sLow sClose) i
+     let c := x 3 i
+     if Arith.lt st c then buy else if Arith.gt st c then sell else hold''' % KNAME[k], cfg='[%d, p]' % k, suffix='With' + kn)
     out += '''/-! non-vacuity -/
 example : ∃ e, lookupS (α := Float) "Rsi" [14] [30.0, 70.0] = some e ∧ e.idle = 14 := ⟨_, rfl, rfl⟩
 
